@@ -638,6 +638,19 @@ fn dump_fn<'tcx>(tcx: TyCtxt<'tcx>, def: LocalDefId, n_calls: &mut usize) -> Opt
     o.push(("names", J::Arr(names)));
     o.push(("blocks", cx.blocks()));
     *n_calls += cx.n_calls;
+    // promoted constants (e.g. `&Instant::ZERO` used in a comparison) as tiny bodies
+    {
+        let mut ps = Vec::new();
+        for pb in tcx.promoted_mir(did).iter() {
+            let mut pcx = Cx { tcx, body: pb, def, env, n_calls: 0 };
+            let mut locals = Vec::new();
+            for (_l, d) in pb.local_decls.iter_enumerated() {
+                locals.push(J::s(tystr(d.ty)));
+            }
+            ps.push(J::Obj(vec![("locals", J::Arr(locals)), ("blocks", pcx.blocks())]));
+        }
+        o.push(("promoted", J::Arr(ps)));
+    }
     let _ = cx.def;
     Some(J::Obj(o))
 }
